@@ -64,3 +64,41 @@ func TestKnownFindings(t *testing.T) {
 		})
 	}
 }
+
+// TestKnownC15SharedRegexExample replays the open C15 finding: the same three TYPE blocks in two orders give different
+// "example" strings for @a and @b (everything else is equal).
+func TestKnownC15SharedRegexExample(t *testing.T) {
+	head := "JSIGHT 0.3\nTYPE @r regex\n  /[a-z]{8}/\n"
+	a := "TYPE @a\n  {\"x\": @r}\n"
+	b := "TYPE @b\n  {\"y\": @r}\n"
+	example := func(doc, typ string) string {
+		dir := t.TempDir()
+		p := filepath.Join(dir, "root.jst")
+		os.WriteFile(p, []byte(doc), 0o644)
+		j, je := kit.NewJapi(p)
+		if je != nil {
+			t.Fatalf("rejected: %v", je)
+		}
+		out, err := j.ToJson()
+		if err != nil {
+			t.Fatal(err)
+		}
+		var m struct {
+			UserTypes map[string]struct {
+				Schema struct {
+					Example string `json:"example"`
+				} `json:"schema"`
+			} `json:"userTypes"`
+		}
+		if err := json.Unmarshal(out, &m); err != nil {
+			t.Fatal(err)
+		}
+		return m.UserTypes[typ].Schema.Example
+	}
+	e1, e2 := example(head+a+b, "@a"), example(head+b+a, "@a")
+	if e1 != e2 {
+		t.Logf("REPRODUCED (C15 entry-changed:example-of-shared-regex-type): example of @a is %s when @a is declared before @b and %s when it is declared after it\noracle: permuting independent top-level blocks leaves the content of every entry unchanged", e1, e2)
+	} else {
+		t.Logf("NOT REPRODUCED (C15 entry-changed:example-of-shared-regex-type): %s in both orders", e1)
+	}
+}
